@@ -162,7 +162,7 @@ impl<'a> Interp<'a> {
     pub fn from_none_value(&self, r: &Recv) -> Value {
         match &r.shape {
             Shape::Struct(_) => tagged_struct(self.recvs, r, Tag::FromNone),
-            Shape::Enum(_) => default_value(self.recvs, r),
+            _ => default_value(self.recvs, r),
         }
     }
 
@@ -175,6 +175,8 @@ impl<'a> Interp<'a> {
                     None
                 }
             }
+            Shape::Unit => Some(default_value(self.recvs, r)),
+            Shape::Newtype(_) => None,
             Shape::Enum(vs) => {
                 if let Some(v) = vs.iter().find(|v| v.word && !v.skip) {
                     Some(enum_value(r, v, Value::Null))
@@ -225,6 +227,10 @@ impl<'a> Interp<'a> {
     // ------------------------------------------------------------ derived FromMeta receivers
 
     pub fn recv_from_meta(&self, r: &Recv, it: &Item) -> Conv {
+        // a newtype struct hands the whole item to its only field
+        if let Shape::Newtype(t) = &r.shape {
+            return self.from_meta(t, it).map(|v| newtype_value(r, v));
+        }
         match &it.kind {
             Kind::Word => match self.from_word_value(r) {
                 Some(v) => Ok(v),
@@ -247,6 +253,8 @@ impl<'a> Interp<'a> {
                 self.struct_finish(r, fs, st, true)
             }
             Shape::Enum(_) => self.enum_from_list(r, items),
+            // a unit struct accepts the bare word only; a newtype never gets here
+            Shape::Unit | Shape::Newtype(_) => Err(vec![leaf(LeafKind::BadValue, Where::Nowhere, "")]),
         }
     }
 
